@@ -169,6 +169,40 @@ func init() {
 			}
 		}
 	}
+	debugHooks["filterbuilds"] = func(w *World) {
+		w.Census()
+		tab, _, err := w.axisTable()
+		if err != nil {
+			fmt.Println(err)
+			return
+		}
+		seen := map[*QType]bool{}
+		var ts []*QType
+		for _, e := range tab {
+			if !seen[e.Type] {
+				seen[e.Type] = true
+				ts = append(ts, e.Type)
+			}
+		}
+		fbs, _, err := w.filterBuilds(ts)
+		if err != nil {
+			fmt.Println(err)
+			return
+		}
+		for _, f := range fbs {
+			fmt.Printf("%s rewritten=%v plain=%v why=%s\n", f.Step.Name(), f.Rewritten, f.Plain, f.Why)
+		}
+	}
+	debugHooks["initstate"] = func(w *World) {
+		st := w.initState()
+		for g, o := range st.globals {
+			fmt.Printf("%s:", g.Name())
+			for k, v := range st.obj(o).Fields {
+				fmt.Printf(" %d=%s", k, v.String())
+			}
+			fmt.Println()
+		}
+	}
 	debugHooks["scan"] = func(w *World) {
 		g, err := w.grammar()
 		if err != nil {
